@@ -101,8 +101,13 @@ def _mentions_bound_var(t):
     return False
 
 
+_CTX = {}
+
+
 def instantiate_axioms(terms, rounds=2):
     """Ground instances of the schema facts for every UF application in `terms`."""
+    # regular-expression facts about digit strings are only added to queries that talk about digits at all
+    _CTX["digits"] = any(z3.is_app(t) and t.decl().name() in ("py_isdigit", "py_int_ok", "py_int_of", "py_isascii") for t in _subterms(list(terms)))
     facts = []
     done = set()
     cur = list(terms)
@@ -138,7 +143,8 @@ def _facts_for(name, t):
         else:
             out.append(U["lower"](t) == t)
             out.append(z3.Implies(z3.Length(a) == 0, t == z3.StringVal("")))
-            out.append(z3.Implies(z3.InRe(a, DIGITS), t == a))      # ASCII digit strings have no cased characters
+            if _CTX.get("digits"):
+                out.append(z3.Implies(z3.InRe(a, DIGITS), t == a))      # ASCII digit strings have no cased characters
     elif name == "py_strip":
         if lit is not None:
             out.append(t == z3.StringVal(lit.strip()))
@@ -801,6 +807,7 @@ def new_dict(eng, st, kind):
     h.set(("dn", kf), z3.Store(h.get(("dn", kf)), r, z3.IntVal(0)))
     h.get(("dval", kf, vf))
     h.get(("dkeys", kf))
+    h.get(("dpos", kf))
     return d
 
 
@@ -823,6 +830,8 @@ def dict_store(eng, st, d, key, v):
     h.set(("dval", kf, vf), z3.Store(h.get(("dval", kf, vf)), d.t, z3.Store(val, kt, vt)))
     h.set(("dn", kf), z3.Store(h.get(("dn", kf)), d.t, z3.If(present, n, n + 1)))
     h.set(("dkeys", kf), z3.Store(h.get(("dkeys", kf)), d.t, z3.If(present, keys, z3.Store(keys, n, kt))))
+    pos = z3.Select(h.get(("dpos", kf)), d.t)
+    h.set(("dpos", kf), z3.Store(h.get(("dpos", kf)), d.t, z3.If(present, pos, z3.Store(pos, kt, n))))
 
 
 def dict_remove(eng, st, d, kt):
@@ -839,6 +848,11 @@ def dict_remove(eng, st, d, kt):
     h.set(("dhas", kf), z3.Store(h.get(("dhas", kf)), d.t, z3.Store(has, kt, z3.BoolVal(False))))
     h.set(("dn", kf), z3.Store(h.get(("dn", kf)), d.t, n - 1))
     h.set(("dkeys", kf), z3.Store(h.get(("dkeys", kf)), d.t, nk))
+    pos = z3.Select(h.get(("dpos", kf)), d.t)
+    npos = fresh("dposr", z3.ArraySort(FAM_SORT[kf], IntS))
+    kq = z3.Const("k!dr", FAM_SORT[kf])
+    st.assume(z3.ForAll([kq], z3.Select(npos, kq) == z3.If(z3.Select(pos, kq) > p, z3.Select(pos, kq) - 1, z3.Select(pos, kq))))
+    h.set(("dpos", kf), z3.Store(h.get(("dpos", kf)), d.t, npos))
 
 
 # ---- comprehensions ---------------------------------------------------------------------------------
@@ -1025,6 +1039,7 @@ def dict_comp(eng, e, st, fr, k):
         distinct = z3.ForAll([j, j2_], z3.Implies(z3.And(0 <= j, j < j2_, j2_ < n), kt != z3.substitute(kt, (j, j2_))))
         s.assume(z3.Implies(distinct, z3.And(cnt == n, z3.ForAll([t_], z3.Implies(z3.And(0 <= t_, t_ < n), z3.And(z3.Select(okeys, t_) == key_at(t_), z3.Select(last, key_at(t_)) == t_))))))
         h.set(("dkeys", kf), z3.Store(h.get(("dkeys", kf)), d.t, okeys))
+        h.set(("dpos", kf), z3.Store(h.get(("dpos", kf)), d.t, opos))
         return k(s, d)
     return eng.ev(g.iter, st, fr, got_iter)
 
@@ -1221,6 +1236,30 @@ def _ghost(eng, e, st, fr, k):
 _GHOST_FNS = {}
 
 
+def _dict_wf(eng, e, st, fr, k):
+    """dict_wf(d): the order array lists exactly the present keys, each once (pos is its inverse)"""
+    def got(s, d):
+        kf, vf, has, val, n, keys = dict_parts(eng, s, d)
+        pos = z3.Select(s.heap.get(("dpos", kf)), d.t)
+        t = fresh("t_dwf", IntS)
+        kx = fresh("k_dwf", FAM_SORT[kf])
+        return k(s, SBool(z3.And(n >= 0,
+                                 z3.ForAll([t], z3.Implies(z3.And(0 <= t, t < n), z3.And(z3.Select(has, z3.Select(keys, t)), z3.Select(pos, z3.Select(keys, t)) == t))),
+                                 z3.ForAll([kx], z3.Implies(z3.Select(has, kx), z3.And(0 <= z3.Select(pos, kx), z3.Select(pos, kx) < n, z3.Select(keys, z3.Select(pos, kx)) == kx))))))
+    return eng.ev(e.args[0], st, fr, got)
+
+
+def _dict_pos(eng, e, st, fr, k):
+    """dict_pos(d, key): position of key in d's insertion order"""
+    def got(s, d):
+        def got_k(s2, kv):
+            kf = dict_parts(eng, s2, d)[0]
+            kk, vk = dict_kinds(d.kind)
+            return k(s2, SInt(z3.Select(z3.Select(s2.heap.get(("dpos", kf)), d.t), eng.coerce(s2, kv, kk))))
+        return eng.ev(e.args[1], s, fr, got_k)
+    return eng.ev(e.args[0], st, fr, got)
+
+
 def _ghostfn(eng, e, st, fr, k):
     """ghostfn('name', x): an uninterpreted int -> int function.  Used in a `requires` it states that SOME such
     function exists (e.g. an owner map witnessing that objects are pairwise distinct); the symbol is otherwise free."""
@@ -1315,7 +1354,7 @@ def _modconst(eng, e, st, fr, k):
     return k(st, eng.const_value(node, mod, st, fr))
 
 
-SPECIAL_FORMS = {"was": _was, "ghostfn": _ghostfn, "ghost_str": _ghost_str, "ghost": _ghost, "ref_id": _ref_id, "same_class": _same_class, "existed": _existed, "content_unchanged": _content_unchanged, "modconst": _modconst, "nlines": _nlines, "joined": _joined, "truthy": _truthy, "isint": _isint, "isnone": _isnone,
+SPECIAL_FORMS = {"dict_wf": _dict_wf, "dict_pos": _dict_pos, "was": _was, "ghostfn": _ghostfn, "ghost_str": _ghost_str, "ghost": _ghost, "ref_id": _ref_id, "same_class": _same_class, "existed": _existed, "content_unchanged": _content_unchanged, "modconst": _modconst, "nlines": _nlines, "joined": _joined, "truthy": _truthy, "isint": _isint, "isnone": _isnone,
                  "dict_key_at": _dict_key_at, "str_of": _str_of, "forall": _quant("forall"), "exists": _quant("exists"), "implies": _implies, "old": _old,
                  "fresh": _fresh, "allocated": _allocated, "unchanged": _unchanged, "isstr": _isstr,
                  "sval": _sval, "ival": _ival, "cls_is": _cls_is, "same": _same_obj, "as_ref": _as_ref}
